@@ -11,7 +11,7 @@ EXPLANATION = (
     "only by init / pop / destroy (single consumer).  SPSC uses the same skeleton with release stores and acquire loads.  The "
     "relaxed MPSC reduces the producer number modulo the number of sub-queues, and its pop visits every sub-queue once "
     "(counter advanced once per visit) before it reports empty.  Histories (exactly-once, order) are not decided.")
-NOT_DECIDED = ["exactly-once and per-producer order over all interleavings (history property)"]
+NOT_DECIDED = ["exactly-once and per-producer order over all interleavings (history property)", "real-time precedence against an observer outside the memory model (see C13)"]
 ASSUMPTIONS = []
 
 
